@@ -26,6 +26,7 @@ import (
 	"flag"
 	"fmt"
 	"go/ast"
+	"go/build"
 	"go/parser"
 	"go/printer"
 	"go/token"
@@ -321,6 +322,10 @@ func main() {
 		if err != nil || info.IsDir() || !strings.HasSuffix(p, ".go") || strings.HasSuffix(p, "_test.go") {
 			return nil
 		}
+		// files excluded by build constraints (the add-only `verif` hooks) are not part of the program
+		if ok, err := build.Default.MatchFile(filepath.Dir(p), filepath.Base(p)); err != nil || !ok {
+			return nil
+		}
 		f, err := parser.ParseFile(fset, p, nil, parser.SkipObjectResolution)
 		if err != nil {
 			problem("parse %s: %v", p, err)
@@ -421,6 +426,28 @@ func main() {
 		}
 	}
 	list("sinkNodes", sinkList)
+	// positive control: approve does reach ApplyCommands (a path as certificate)
+	approve := "(*" + mod + "pkg/device.state).approve"
+	goal := "(*" + mod + "pkg/asa.State).ApplyCommands"
+	prev := map[string]string{approve: ""}
+	queue := []string{approve}
+	for len(queue) > 0 && prev[goal] == "" {
+		v := queue[0]
+		queue = queue[1:]
+		for _, w := range cadj[v] {
+			if _, ok := prev[w]; !ok {
+				prev[w] = v
+				queue = append(queue, w)
+			}
+		}
+	}
+	var path []string
+	if _, ok := prev[goal]; ok && kept[approve] {
+		for v := goal; v != ""; v = prev[v] {
+			path = append([]string{v}, path...)
+		}
+	}
+	list("approvePath", path)
 	b.WriteString("/-- (node of the enclosing function, its name, package, primitive, argument is a literal, argument) -/\n")
 	b.WriteString("def sendSites : List (Nat × String × String × String × Bool × String) := [")
 	for i, s := range sites {
